@@ -26,14 +26,23 @@ RULE = ("prog: 2..6 flows, each waits for `match E(<subset of the payload, occas
         "prio*(num/den)^k (Lean mcmp). non-trivial = some recorded call has >= 2 heads in one loop, or a score pair that differs in k or priority; "
         "distinct = distinct case JSON. Phase 4: 10% low-priority programs (priority 0.05..0.3, 4..10 event parameters, neighbouring specificity levels); "
         "shape `borrow` (the flow sends the Start event of an action it holds by reference only); `@loop(\"NEW\")` programs; two keyword arguments written "
-        "in either order; 4% restart programs (sharers of one action send its Start event again against a fresh instance).")
+        "in either order; 4% restart programs (sharers of one action send its Start event again against a fresh instance). Phase 5: 25% path programs "
+        "(g_prog_paths; 25% of the `direct` flows of g_prog get a path too): the flow waits with a plain match, an or-group (other event / second pattern, fitting or not), an and-group "
+        "(equally specific patterns), `when E / or when X`, `await u or v`, `await u and v`; between the match and the action 0..2 of: assignment, send of an internal event "
+        "(UserIntentLog, StopFlow of no flow), start of a helper flow, await of a flow that ends at once; the action is wrapped in 0..3 flows (say<d> / emit<d>); 25% of them are triggered "
+        "by an action event (UtteranceUserAction.Finished) instead of E; 20% of the declared priorities override an earlier priority statement; 30% are ROUNDS programs: the flows end after "
+        "their action and are activated (or loop in `while True`), and 1..2 further events with the same keys and re-drawn values follow — every round is judged. For every run_to_completion call "
+        "of a program the skeleton of the main loop is recorded and replayed on the Lean loop model (C05.round).")
 TRUSTED_BASE = [
     "record/replay harness harness/props/C05.py (recorders around _resolve_action_conflicts/_abort_flow/random.choice, rank mapping of floats, "
-    "event keys = canonical JSON of name+arguments) + Lean driver Drive/C05.lean",
+    "event keys = canonical JSON of name+arguments; phase 5: recorders around _advance_head_front / _process_internal_events_without_default_matchers that classify the "
+    "calls of the main loop as event / merge pass / advance and count the pushed internal events) + Lean driver Drive/C05.lean",
     "CPython: `sorted` is stable also with reverse=True, list comparison is lexicographic, dict iteration is insertion ordered; float comparison "
     "(the model sees ranks of the floats that occur in a call, an order isomorphism)",
 ]
 ASSUMPTIONS = [
+    "round model (ConflictRound): `_advance_head_front(state, [])` pushes no internal event (hypothesis hnil of round_drains_before_resolve; the recorded push count of every merge pass "
+    "is part of the replayed script, so a violation shows as a queue length > 0 at a resolution); what processing an event / advancing heads returns is a parameter (World), observed per run",
     "head uids handed to _resolve_action_conflicts are pairwise distinct (checked on every recorded call)",
     "the look-ups of the co-winner branch (action_uids.index, del state.actions[uid]) succeed when the competing flow owns its action and the uid is still "
     "in state.actions (theorem cowin_lookups_succeed; modelled as-is by cowinStepAsIs); where they do not: findings cowin-on-borrowed-action, cowin-double-delete",
